@@ -179,7 +179,8 @@ PLANS = {
         "gen": [{"name": "laws", "module": "Laws", "constants": {"Family": '"num"', "Stride": "1"}, "invariants": ["LawInv"]},
                 gen("num", "num", ["num", "num_decode", "casts"]),
                 gen("numpairs", "numpairs", ["num_cmp"]),
-                gen("sweep16", "sweep16", ["num", "num_cmp"], tiers=("thorough",))],
+                gen("sweep16", "sweep16", ["num", "num_cmp"], tiers=("thorough",)),
+                {"name": "widths", "tool": "apalache", "module": "NumLemma", "inv": "Lemma", "tiers": ("thorough",)}],
         "bounds": "80-number boundary set (every width boundary +-1 of both integer encodings, 2^53/2^63/2^64 neighbourhoods, IEEE class boundaries): all numbers, all ordered pairs, all triples for the order laws; decoder: 11 tags x 3 fillers x lengths 0..18,31..33,64; thorough: exhaustive sweep of every 16-bit unsigned, signed and (top-16-bit) binary64 pattern",
     },
     "C20": {
